@@ -7,6 +7,7 @@ import Driver.FloatDriver
 import Driver.LowerDriver
 import Driver.MalDriver
 import Driver.ValDriver
+import Driver.OptDriver
 /-
 `selen_model`: reads protocol lines on stdin, prints exactly one result line per
 input line.  State is reset by `case <id>`.
@@ -22,6 +23,7 @@ structure St where
   float : FloatSt := {}
   lower : LowerSt := {}
   mal : MalSt := {}
+  opt : OptSt := {}
 
 def step (st : St) (line : String) : St × String :=
   let ws := words line
@@ -51,6 +53,9 @@ def step (st : St) (line : String) : St × String :=
     else if w.startsWith "lw." then
       let (c, out) := lowerStep st.lower ws
       ({ st with lower := c }, out)
+    else if w.startsWith "op." then
+      let (c, out) := optStep st.opt ws
+      ({ st with opt := c }, out)
     else if w.startsWith "vd." then (st, valStep ws)
     else if w.startsWith "mal." then
       let (c, out) := malStep st.mal ws
